@@ -64,6 +64,7 @@ class Run(Oracles):
         self.w = World(program, self.L)
         self.w.trace_on = trace
         self.w.exec_embedded = self.exec_embedded
+        self.w.flush_inline = lambda op: self.actor_flush(op, inline=True)
         self.spawner_map: Dict[Any, ReqM] = {}
         self.cfg = program.get("cfg", {})
         self.guards = set(program.get("guards", ()))   # open findings whose triggers are skipped
